@@ -268,6 +268,11 @@ def login_case(ctx, case):
     if srv.errors:
         ctx.fail('login', 'L2L3-malformed-client-stream', case, srv.errors)
         return
+    if world.open_handles() and not (prior and
+                                     prior[1] == 'handler_direct'):
+        ctx.fail('login', 'L-descriptor-left-open', case,
+                 world.open_handles(), 'all closed once every session ended')
+        return
     if tok is not None and tok.raised:
         # the session service refused the join: whatever the client then
         # does (give up and report that error, or try again), every join it
